@@ -343,6 +343,18 @@ class Sym:
     def __eq__(self, o): return self._cmp(o, lambda a, b: a == b)
     def __ne__(self, o): return self._cmp(o, lambda a, b: a != b)
 
+    def __floor__(self):
+        s = z3.simplify(self.e)
+        if z3.is_rational_value(s):
+            return Fraction(s.numerator_as_long(), s.denominator_as_long()).__floor__()
+        return Sym(z3.ToReal(z3.ToInt(self.e)))          # z3's to_int is the floor of a real
+
+    def __ceil__(self):
+        s = z3.simplify(self.e)
+        if z3.is_rational_value(s):
+            return Fraction(s.numerator_as_long(), s.denominator_as_long()).__ceil__()
+        return Sym(-z3.ToReal(z3.ToInt(-self.e)))
+
     def __float__(self):
         s = z3.simplify(self.e)
         if z3.is_rational_value(s):
